@@ -543,6 +543,11 @@ func (v *visitor) BuiltinNode(node *ast.BuiltinNode) reflect.Type {
 
 func (v *visitor) ClosureNode(node *ast.ClosureNode) reflect.Type {
 	t := v.visit(node.Node)
+	if t == nil {
+		// A closure whose body is nil (or a nil-safe access of unknown type)
+		// returns an untyped value; reflect.FuncOf panics on a nil type.
+		t = interfaceType
+	}
 	return reflect.FuncOf([]reflect.Type{interfaceType}, []reflect.Type{t}, false)
 }
 
